@@ -567,7 +567,7 @@ pub fn run(ctx: &Ctx) {
     let dirs = mk_dirs(ctx);
     let cases = permutations_cases();
     enumerate(ctx, "exh-permutations", &cases, true, |c, o| judge(&dirs, c, o));
-    explore(ctx, "random", ctx.tier.pick(200_000, 3_000_000), strategy, |c: &Case, o| judge(&dirs, c, o));
+    explore(ctx, "random", ctx.tier.pick(500_000, 6_000_000), strategy, |c: &Case, o| judge(&dirs, c, o));
 }
 
 pub fn replay(ctx: &Ctx, part: &str, case: &Value) -> bool {
